@@ -1167,7 +1167,7 @@ def check(tier, seed):
         'hostile_strings': len(hostiles),
         'failing_checks': dict(judge.fail_counts),
         'timing_s': {'build': round(t_start and (t0 - t_start - t_impl), 1), 'implementation': round(t_impl, 1), 'coq_evaluation': round(t_coq, 1)},
-        'exhaustive': 'escape/oneline on every code point 0..159 and 0..255 resp.; attribute key table: all pairs',
+        'exhaustive_parts': 'escape/oneline on every code point 0..159 and 0..255 resp.; attribute key table: all pairs',
     })
     for text in judge.json_lines[:3]:
         run.samples.append({'json_event': text[:400]})
